@@ -388,7 +388,11 @@ fn do_request(env: &WorkerEnv, scn: &Scn, req: &Req, thread: usize, idx: usize, 
                         env: envs,
                         env_remove: vec![],
                         timeout: Duration::from_secs(20),
-                        stdout_to: if req.fs_fault.as_deref() == Some("stdout-dev-full") { full_device(env) } else { None },
+                        stdout_to: match req.fs_fault.as_deref() {
+                            Some("stdout-dev-full") => full_device(env),
+                            Some("stdout-closed-pipe") => Some(PathBuf::from("closed-pipe")),
+                            _ => None,
+                        },
                         stdin_file: if req.alias.as_deref() == Some("stdin-redirect") { Some(inp.clone()) } else { None },
                         stderr_to: None,
                     },
@@ -598,7 +602,10 @@ impl Engine for C07 {
                         r.wplan.flush_err = false;
                     }
                 }
-                if fe == "cli-proc-stdio" && damage && f.chance(1, 2) {
+                if fe == "cli-proc-stdio" && damage && f.chance(1, 4) {
+                    // the reader of the pipe has gone away
+                    r.fs_fault = Some("stdout-closed-pipe".to_string());
+                } else if fe == "cli-proc-stdio" && damage && f.chance(1, 2) {
                     r.fs_fault = Some("stdout-dev-full".to_string());
                 } else if fe == "cli-proc-stdio" && damage && f.chance(1, 3) {
                     // `svgdx -o f < f`: standard input IS the output file
@@ -1058,7 +1065,7 @@ impl Engine for C07 {
             if let Some(ff) = r.req.fs_fault.as_ref().filter(|_| !unnoticed) {
                 res.stats.fault(&format!("fs.{ff}"));
                 // a full device only fails a write that writes something
-                let nothing_to_write = (ff == "out-dev-full" || ff == "stdout-dev-full") && matches!(g, Outcome::Ok(b) if b.is_empty());
+                let nothing_to_write = (ff == "out-dev-full" || ff == "stdout-dev-full" || ff == "stdout-closed-pipe") && matches!(g, Outcome::Ok(b) if b.is_empty());
                 if !r.outcome.is_err() && !nothing_to_write {
                     res.violation(
                         "damage/fs-fault-not-reported",
@@ -1067,7 +1074,7 @@ impl Engine for C07 {
                     );
                 }
                 if let Some(pre) = &r.req.out_pre {
-                    if ff != "outdir-missing" && ff != "out-dev-full" && ff != "stdout-dev-full" {
+                    if ff != "outdir-missing" && ff != "out-dev-full" && ff != "stdout-dev-full" && ff != "stdout-closed-pipe" {
                         res.stats.probe("failing_request_with_existing_output");
                         if r.out_after.as_deref() != Some(sentinel(pre).as_slice()) {
                             res.violation(
